@@ -51,6 +51,9 @@ EDITS=[
  ("C16","zero-step","expand/braces.go",("\t\t\t\t} else if n > 0 {\n\t\t\t\t\tstep = uint64(n)\n\t\t\t\t}","\t\t\t\t} else {\n\t\t\t\t\tstep = uint64(n)\n\t\t\t\t}"),"expand.bracesSeqRec#"),
  ("C20","assgn-rem-uses-quo","expand/arith.go",("\t\tval %= arg","\t\tval /= arg"),"expand.Config.assgnArit#ensures@rem"),
  ("C04","negate-ordering","syntax/simplify.go",("\t\tcase TsNoMatch:\n\t\t\ty.Op = TsMatch\n\t\t\ts.modified = true\n\t\t\treturn y\n","\t\tcase TsNoMatch:\n\t\t\ty.Op = TsMatch\n\t\t\ts.modified = true\n\t\t\treturn y\n\t\tcase TsBefore:\n\t\t\ty.Op = TsAfter\n\t\t\ts.modified = true\n\t\t\treturn y\n"),"syntax.simplifier.removeNegateTest#ensures@complement-table"),
+ ("C06","quoted-hdoc-ignores-eof","syntax/lexer.go",("\tfor ; ; r = p.rune() {\n\t\tif r == runeEOF {\n\t\t\treturn nil\n\t\t}\n\t\tfor p.quote == hdocBodyTabs && r == '\\t' {","\tfor ; ; r = p.rune() {\n\t\tfor p.quote == hdocBodyTabs && r == '\\t' {"),"syntax#eof-exit@Parser.quotedHdocWord"),
+ ("C06","hdoc-body-ignores-eof","syntax/lexer.go",("\t\t\tif r != '\\n' {\n\t\t\t\treturn // hit an unexpected EOF or closing backquote\n\t\t\t}\n",""),"syntax#eof-exit@Parser.advanceLitHdoc"),
+ ("C06","skipspace-ignores-eof","syntax/lexer.go",("\t\tcase runeEOF:\n\t\t\tp.tok = _EOF\n\t\t\treturn\n\t\tcase escNewl:\n\t\t\tr = p.rune()\n\t\tcase ' ', '\\t', '\\r':","\t\tcase escNewl:\n\t\t\tr = p.rune()\n\t\tcase ' ', '\\t', '\\r', runeEOF:"),"syntax#eof-exit@Parser.next"),
  ("C04","forget-modified","syntax/simplify.go",("\t\tcase TsEmpStr:\n\t\t\ty.Op = TsNempStr\n\t\t\ts.modified = true\n","\t\tcase TsEmpStr:\n\t\t\ty.Op = TsNempStr\n"),"syntax.simplifier.removeNegateTest#ensures@changed-sets-modified"),
 ]
 SEEDS=[ # prop, seed dir, expect
@@ -69,6 +72,15 @@ SEEDS=[ # prop, seed dir, expect
  ("C20","C20-1","expand.Config.assgnArit#ensures@reads-old-value-first"),("C20","C20-2","syntax.Parser.arithmExpr#precedence@"),
  ("C04","C04-1","syntax.simplifier.visit#ensures@match-keeps-quotes"),("C04","C04-2","syntax.simplifier.removeNegateTest#ensures@complement-table"),
  ("C28","C23-2","interp.Runner.readLine#inv-pres@"),
+ ("C06","C06-2","syntax#eof-exit@Parser.zshSubFlags"),
+ ("C08","C06-1","syntax.Parser.reset#"),
+ ("C07","C07-1","syntax#refill-retry@Parser.rune"),("C07","C07-2","syntax#refill-at-boundary@Parser.rune"),("C07","C08-2","syntax#refill-at-boundary@Parser.advanceLitHdoc"),
+]
+REVERTS=[ # prop, fix commit in /repo whose reversal must be caught, expect
+ ("C07","baece75","syntax#refill-at-boundary@Parser.rune"),
+ ("C07","fd8acef","syntax#refill-at-boundary@Parser.next"),
+ ("C07","051bed0","syntax#refill-retry@Parser.peekTwo"),
+ ("C07","cfa8c03","syntax#refill-retry@Parser.zshNumRange"),
 ]
 out=f'{V}/selftest/mutants'
 shutil.rmtree(out,ignore_errors=True)
@@ -95,4 +107,10 @@ for prop,seed,expect in SEEDS:
         diff=subprocess.run(['diff','-ruN','--exclude=*.orig','--exclude=*.rej','a','b'],cwd=d,capture_output=True,text=True).stdout
     os.makedirs(f'{out}/{prop}',exist_ok=True)
     open(f'{out}/{prop}/seed-{seed}.patch','w').write(f'# expect: {expect}\n'+diff); n+=1
+for prop,commit,expect in REVERTS:
+    diff=subprocess.run(['git','-C',R,'diff',commit,commit+'^'],capture_output=True,text=True).stdout
+    r=subprocess.run(['git','-C',R,'apply','--check','-'],input=diff,capture_output=True,text=True)
+    if r.returncode!=0: print('REVERT DOES NOT APPLY:',commit,r.stderr[:200]); continue
+    os.makedirs(f'{out}/{prop}',exist_ok=True)
+    open(f'{out}/{prop}/revert-{commit}.patch','w').write(f'# expect: {expect}\n'+diff); n+=1
 print(n,'mutants written')
